@@ -203,6 +203,9 @@ func (loc *Location) init(ctx *Context) error {
 }
 
 func (loc *Location) StateSize(ctx *Context) (int, error) {
+	if !loc.Enabled(ctx) {
+		return 0, fmt.Errorf("Location is disabled.")
+	}
 	if err := loc.CheckRead(ctx); err != nil {
 		return 0, err
 	}
@@ -837,6 +840,10 @@ func (loc *Location) GetParents(ctx *Context) ([]string, error) {
 	if !loc.Enabled(ctx) {
 		Log(WARN, ctx, "Location.GetParents", "location", loc.Name)
 		return nil, fmt.Errorf("Location is disabled.")
+	}
+	// The parents are a (stored) property of this location.
+	if err := loc.CheckRead(ctx); err != nil {
+		return nil, err
 	}
 
 	Metric(ctx, "GetParents", "location", loc.Name)
